@@ -1136,6 +1136,67 @@ example : centeredBox [9, 6, 5] [4, 6, 2] = [(2, 6), (0, 6), (1, 3)] := by decid
 example : convCrop .same 16 10 5 = some (3, 10) := by decide
 example : (centeredMask (⟨[4], #[5,6,7,8]⟩ : Arr Int) [2]).toList = [0,6,7,0] := by decide
 
+/-! ## deepen8: symmetry, ordering of the mode extents, identity crops -/
+
+/-- the per-axis convolution extent does not depend on the order of the two shapes -/
+theorem convLen_comm (a b : Nat) : convLen a b = convLen b a := by
+  unfold convLen; omega
+
+/-- `compute_convolution_shapes`: the convolution shape is symmetric in its two arguments -/
+theorem convShape_comm : ∀ (s1 s2 : List Nat), convShape s1 s2 = convShape s2 s1
+  | [], [] => rfl
+  | [], _ :: _ => rfl
+  | _ :: _, [] => rfl
+  | a :: as, b :: bs => by
+    have ih := convShape_comm as bs
+    simp only [convShape, List.zipWith_cons_cons] at ih ⊢
+    rw [ih, convLen_comm]
+
+/-- the planned (fast) shape has one entry per common axis -/
+theorem fastShape_length (s1 s2 : List Nat) : (fastShape s1 s2).length = min s1.length s2.length := by
+  simp [fastShape, convShape]
+
+/-- the half spectrum is never empty, and never longer than the real axis once that has two samples -/
+theorem halfLen_bounds (n : Nat) (h : 2 ≤ n) : 1 ≤ halfLen n ∧ halfLen n ≤ n := by
+  unfold halfLen; omega
+
+/-- a longer real axis never has a shorter half spectrum -/
+theorem halfLen_mono (a b : Nat) (h : a ≤ b) : halfLen a ≤ halfLen b := by
+  unfold halfLen; omega
+
+/-- crop extents are ordered `valid ≤ same ≤ full`; `valid` is never negative when the template fits and keeps at
+least one sample when it is strictly smaller or odd (an even template of the target's size leaves none) -/
+theorem mode_extents_ordered (s1 s2 : Nat) (h2 : 1 ≤ s2) (h : s2 ≤ s1) :
+    0 ≤ validLen s1 s2 ∧ (s2 < s1 ∨ s2 % 2 = 1 → 1 ≤ validLen s1 s2) ∧ validLen s1 s2 ≤ (s1 : Int) ∧ s1 ≤ convLen s1 s2 := by
+  unfold validLen convLen; omega
+
+example : 1 ≤ validLen 10 4 ∧ validLen 10 4 ≤ (10 : Int) ∧ 10 ≤ convLen 10 4 ∧ validLen 4 4 = 0 := by decide
+
+/-- `valid` extent in closed form: `s1 - s2 + 1` for an odd template, `s1 - s2` for an even one -/
+theorem validLen_parity (s1 s2 : Nat) :
+    (s2 % 2 = 1 → validLen s1 s2 = (s1 : Int) - s2 + 1) ∧ (s2 % 2 = 0 → validLen s1 s2 = (s1 : Int) - s2) := by
+  unfold validLen; omega
+
+/-- the centre slice of the full extent is the whole axis (start 0, stop `n`) -/
+theorem centerSlice_self (n : Nat) : centerStart n n = 0 ∧ centerStop n n = n := by
+  unfold centerStop centerStart; omega
+
+/-- centre of a centre: the two nested offsets add up to the direct offset, short by at most the one sample lost
+when both differences are odd; exact when either difference is even -/
+theorem centerStart_compose (c b a : Nat) (h1 : a ≤ b) (h2 : b ≤ c) :
+    centerStart c b + centerStart b a ≤ centerStart c a ∧ centerStart c a ≤ centerStart c b + centerStart b a + 1 ∧
+    ((c - b) % 2 = 0 ∨ (b - a) % 2 = 0 → centerStart c b + centerStart b a = centerStart c a) := by
+  unfold centerStart; omega
+
+example : centerStart 9 5 + centerStart 5 3 = centerStart 9 3 := by decide
+
+/-- the margins left and right of the centre slice differ by at most one sample, the surplus on the right -/
+theorem centerSlice_margins (cur new : Nat) (h : new ≤ cur) :
+    0 ≤ centerStart cur new ∧ centerStart cur new ≤ (cur : Int) - centerStop cur new ∧
+    (cur : Int) - centerStop cur new ≤ centerStart cur new + 1 := by
+  unfold centerStop centerStart; omega
+
+
 /-! ## the transform pair the helpers plan for is an inverse pair (exact arithmetic, every shape) -/
 
 /-- **Round trip of the planned transform, for every shape, parity and dimension.**  For the separable n-D DFT on a box
